@@ -175,6 +175,10 @@ def verdict_required(arms: list, mutate: str | None = None) -> str:
 def verdict_acceptable(arms: list) -> set:
     req = verdict_required(arms)
     acc = {req}
+    if any(a["o"] == "stuck" and a["r"] == "spawnfail" for a in arms):
+        # UNCONSTRAINED: a spawn failure is not among the property's solver replies; for the synchronous confirmation
+        # query of a stuck path any non-PASS verdict is accepted
+        acc |= {"FAIL", "ERROR", "TIMEOUT"}
     qc = [verdict_qclass(a) for a in arms if a["o"] in VIOL]
     stuck = [a for a in arms if a["o"] == "stuck" and a["r"] not in UNSAT_KINDS]
     if req == "ERROR" and not stuck and "fail" not in qc and "to" in qc:
@@ -650,6 +654,33 @@ class _NoForge:
         return types.SimpleNamespace(returncode=0)
 
 
+def verdict_mutated_run_test(kind: str):
+    """halmos' run_test with one of the two repaired behaviours put back (compiled from its source inside halmos.__main__'s
+    namespace, in this process only): "old-precedence" tests `unknown` before `stuck` in the verdict table,
+    "no-catch" lets the ShutdownError of the confirmation query of a stuck path escape."""
+    import inspect
+    import textwrap
+
+    src = textwrap.dedent(inspect.getsource(hmain.run_test))
+    if kind == "old-precedence":
+        a = src.index('    elif len(stuck) > 0:')
+        b = src.index('    elif counter["unknown"] > 0:')
+        c = src.index('    elif normal == 0:')
+        if not a < b < c:
+            raise MachineryError("run_test's verdict table does not have the expected shape (stuck, unknown, normal)")
+        new = src[:a] + src[b:c] + src[a:b] + src[c:]
+    elif kind == "no-catch":
+        old = "            except ShutdownError:\n                # early exit was triggered while this path was being confirmed"
+        if old not in src:
+            raise MachineryError("run_test does not catch ShutdownError around the confirmation query as expected")
+        new = src.replace(old, "            except ZeroDivisionError:\n                # (mutant: ShutdownError not caught)", 1)
+    else:
+        raise MachineryError(f"unknown run_test mutation {kind}")
+    new = new.replace("def run_test(", "def run_test__verdict_mutant(", 1)
+    exec(compile(new, f"<run_test mutant {kind}>", "exec"), hmain.__dict__)  # noqa: S102
+    return hmain.__dict__.pop("run_test__verdict_mutant")
+
+
 def verdict_read_journal(path: str) -> list:
     out = []
     try:
@@ -719,6 +750,9 @@ def verdict_run_batch(job: dict) -> dict:
             return real_from_result(stdout, stderr, returncode, path_ctx)
 
         hsolve.SolverOutput.from_result = staticmethod(bad_from_result)
+    real_run_test = hmain.run_test
+    if mut in ("old-precedence", "no-catch"):
+        hmain.run_test = verdict_mutated_run_test(mut)  # picked up as the "real" function by verdict_instrumented
     handlers = {sig: signal.getsignal(sig) for sig in (signal.SIGINT, signal.SIGTERM)}
     t0 = time.time()
     logs = ""
@@ -755,6 +789,7 @@ def verdict_run_batch(job: dict) -> dict:
     finally:
         if mut:
             hsolve.SolverOutput.from_result = staticmethod(real_from_result)
+        hmain.run_test = real_run_test
         for sig, h in handlers.items():
             with contextlib.suppress(Exception):
                 signal.signal(sig, h)
@@ -908,10 +943,10 @@ def verdict_code_of(nsat: int, nerr: int, nunk: int, nstuck: int, nnormal: int) 
         return 1
     if nerr:
         return 5
+    if nstuck:  # since /repo 78a52f5: a stuck path (ERROR) before a timeout
+        return 3
     if nunk:
         return 2
-    if nstuck:
-        return 3
     if nnormal == 0:
         return 4
     return 0
@@ -977,9 +1012,6 @@ def verdict_finding_key(s: VScn, code: int) -> str:
     kept = [a for a in s.arms if a["o"] == "stuck" and a["r"] not in UNSAT_KINDS]
     if code == 2 and req == "ERROR" and kept and "fail" not in qc:
         return "precedence:timeout-over-stuck"
-    if code == 5 and req == "FAIL" and any(a["o"] == "stuck" for a in s.arms):
-        if any(a["o"] == "stuck" and a["r"] == "spawnfail" for a in s.arms):
-            return "stuck-confirm-exception-masks-fail"
-        if s.early:
-            return "early-exit-order-dependent:stuck-confirm-raises"
+    if code == 5 and req == "FAIL" and s.early and any(a["o"] == "stuck" for a in s.arms):
+        return "early-exit-order-dependent:stuck-confirm-raises"
     return f"verdict:{s.key()}:{CLASS_OF[code]}-not-{req}"
